@@ -6,8 +6,9 @@
    sequences of character codes).
 
    The environment is the choice of the case (Init): host class x port
-   {none, 0, 1, 65535} x transport x subset of the transport's settings (Subs)
-   x integer notation, or a host/port pair (x default port) for split/join.  One action per function of the
+   {none, 0, 1, 65535} x transport x subset of the transport's settings x
+   integer notation (two families: Subs x Notas and Subs2 x Notas2), or a
+   host/port pair (x default port) for split/join.  One action per function of the
    code path.  Property: the result is accepted by the contract
    (TargetUriContract), clause by clause.  With Export = TRUE every finished
    case is printed <<"C", ...>> for the harness, which concretises it and runs
@@ -21,7 +22,7 @@
                                   IPv6 host                                     *)
 EXTENDS TargetUriContract, SequencesExt, TLC
 
-CONSTANTS Subs(_), HostClasses, HostOf(_), Export,
+CONSTANTS Subs(_), Notas, Subs2(_), Notas2, HostClasses, HostOf(_), Export,
           Dev_S27_Ipv6JoinLiteral, Dev_S28_PortZero, Dev_N1_Ipv6NoPortUnbracketed
 
 VARIABLES case, netloc, parsed, cfg, pc
@@ -131,12 +132,14 @@ ConfigOf(c) ==
 ----------------------------------------------------------------------------
 None == [t |-> "none"]
 Ports  == {NoPort, 0, 1, 65535}
-Notas  == {"scanner", "dec", "hex", "oct", "bin", "mixed"}
+AllNotas == {"scanner", "dec", "hex", "oct", "bin", "mixed"}
 Trs    == {"doip", "hsfz", "isotp"}
 Dflts  == {NoPort, 7}
 \* nested quantifiers, not one big set of records: TLC enumerates them lazily
 InitCase ==
   \/ \E tr \in Trs, hc \in HostClasses, p \in Ports, n \in Notas : \E fs \in Subs(tr) :
+       case = [mode |-> "uri", tr |-> tr, hc |-> hc, host |-> HostOf(hc), port |-> p, fields |-> fs, nota |-> n]
+  \/ \E tr \in Trs, hc \in HostClasses, p \in Ports, n \in Notas2 : \E fs \in Subs2(tr) :
        case = [mode |-> "uri", tr |-> tr, hc |-> hc, host |-> HostOf(hc), port |-> p, fields |-> fs, nota |-> n]
   \/ \E hc \in HostClasses, p \in Ports \ {NoPort}, d \in Dflts :
        case = [mode |-> "hp", hc |-> hc, host |-> HostOf(hc), port |-> p, dflt |-> d]
@@ -188,6 +191,7 @@ Next == BuildWithPort \/ BuildNoPort \/ ParseUri \/ Configure \/ Join \/ Write \
 Spec == Init /\ [][Next]_vars /\ WF_vars(Next)
 
 ----------------------------------------------------------------------------
+ASSUME Notas \subseteq AllNotas /\ Notas2 \subseteq AllNotas
 TypeOK == pc \in {"start", "built", "parsed", "done"} /\ parsed.t \in {"none", "ok", "err"}
                                                        /\ cfg.t \in {"none", "ok", "err"}
 DoneUri   == pc = "done" /\ case.mode = "uri"
